@@ -1005,6 +1005,8 @@ def c21(run):
     run.rp_rec_leg("rp_asm", "MC_AsmRP", "MC_AsmRP4.cfg" if run.tier == "thorough" else "MC_AsmRP3.cfg", "asm", "MC_Asm_ops.ndjson",
                    verdict=["panic", "rel", "symkept", "objsym", "unknown-event"], workers=16)
     run.rec_leg("link", ["link"], verdict=["panic", "unresolved-load", "resolved-word", "symkept", "set-image", "set-rel", "unknown-event"])
+    run.rp_rec_leg("rp_link", "MC_LinkRP", "MC_LinkRP3.cfg" if run.tier == "thorough" else "MC_LinkRP2.cfg", "link", "MC_Link_ops.ndjson",
+                   verdict=["panic", "unresolved-load", "resolved-word", "symkept", "set-image", "set-rel", "unknown-event"], workers=16)
     return run.finish(
         rule="generated programs with .external declared before, inside and after the blocks that use it, assembled with and "
              "without debug symbols: the relocation entries must be exactly the .fill statements of external labels "
@@ -1032,6 +1034,8 @@ def c22(run):
 @check("C17")
 def c17(run):
     run.rec_leg("link", ["link"], verdict=["panic", "rt-bin", "unknown-event"])
+    run.rp_rec_leg("rp_link", "MC_LinkRP", "MC_LinkRP3.cfg" if run.tier == "thorough" else "MC_LinkRP2.cfg", "link", "MC_Link_ops.ndjson",
+                   verdict=["panic", "rt-bin", "unknown-event"], workers=16)
     run.rec_leg("asm_rt", ["rt", "fmt=bin"], verdict=["panic", "rt-bin", "unknown-event"])
     run.mc_leg("mc_objformat", "MC_ObjFormat", "MC_ObjFormat3.cfg" if run.tier == "thorough" else "MC_ObjFormat.cfg", workers=16, timeout=3000)
     run.rec_leg("fmt", ["fmt"], spec="TV_Fmt", cfg="TV_Fmt.cfg", verdict=["panic", "fmt-roundtrip", "unknown-event"])
@@ -1052,6 +1056,8 @@ def c17(run):
 @check("C18")
 def c18(run):
     run.rec_leg("link", ["link"], verdict=["panic", "rt-txt", "unknown-event"])
+    run.rp_rec_leg("rp_link", "MC_LinkRP", "MC_LinkRP3.cfg" if run.tier == "thorough" else "MC_LinkRP2.cfg", "link", "MC_Link_ops.ndjson",
+                   verdict=["panic", "rt-txt", "unknown-event"], workers=16)
     run.rec_leg("asm_rt", ["rt", "fmt=txt"], verdict=["panic", "rt-txt", "unknown-event"])
     run.mc_leg("mc_txtformat", "MC_TxtFormat", "MC_TxtFormat.cfg", workers=8, timeout=3000)
     run.rec_leg("fmt", ["fmt"], spec="TV_Fmt", cfg="TV_Fmt.cfg", verdict=["panic", "txt-roundtrip", "unknown-event"])
@@ -1102,6 +1108,8 @@ def c26(run):
     run.rp_rec_leg("rp_asm", "MC_AsmRP", "MC_AsmRP4.cfg" if run.tier == "thorough" else "MC_AsmRP3.cfg", "asm", "MC_Asm_ops.ndjson",
                    verdict=["panic", "errspan", "errlabel", "unknown-event"], workers=16)
     run.rec_leg("link", ["link", "conflicts=1"], verdict=["panic", "link-errspan", "unknown-event"])
+    run.rp_rec_leg("rp_link", "MC_LinkRP", "MC_LinkRP3.cfg" if run.tier == "thorough" else "MC_LinkRP2.cfg", "link", "MC_Link_ops.ndjson",
+                   verdict=["panic", "link-errspan", "unknown-event"], workers=16)
     return run.finish(
         rule="every failing assembly of the fault-injected programs of C02 and every failing link of the sets of C20: span(), "
              "iter() and first() are queried under catch_unwind; for assembler errors the list must be non-empty, first() must "
